@@ -145,7 +145,11 @@ class World:
     def create(self, cls, bits, how):
         bs = self.bs
         c = cls_of(cls)
-        if how == 'literal' and bits:
+        if how in ('literal', 'fromstring', 'hexlit') and not bits:
+            # the empty string (and blank / comma-only strings) are token strings too
+            text = ['', ' ', ',', '', ' , '][len(self.pool) % 5]
+            o = c.fromstring(text) if how == 'fromstring' else c(text)
+        elif how == 'literal' and bits:
             o = c('0b' + bits)
         elif how == 'hexlit' and bits and len(bits) % 4 == 0:
             o = c('0x' + format(int(bits, 2), f'0{len(bits) // 4}x'))
@@ -673,7 +677,7 @@ raw = st.integers(0, 1000)
 def step_st(draw, focus):
     k = draw(st.integers(0, 99))
     if k < 14:
-        return ['create', draw(cls_st), draw(small_bits), draw(st.sampled_from(['bin', 'literal', 'hexlit', 'fromstring', 'uint']))]
+        return ['create', draw(cls_st), draw(small_bits) if draw(st.integers(0, 5)) else '', draw(st.sampled_from(['bin', 'literal', 'hexlit', 'fromstring', 'uint']))]
     if k < 18:
         return ['create_kw', draw(cls_st), draw(st.integers(0, len(RECIPES) - 1)), draw(st.sampled_from(KW_VIAS))]
     if k < 24:
@@ -760,6 +764,21 @@ def immutable_case(draw, tier):
 
 
 @st.composite
+def empty_case(draw, tier):
+    """several empty objects made from empty / blank strings and other routes, grown in place in between"""
+    steps = []
+    for _ in range(draw(st.integers(2, 5))):
+        steps.append(['create', draw(cls_st) if draw(st.booleans()) else draw(st.sampled_from(MUTABLE)), '', draw(st.sampled_from(['literal', 'fromstring', 'bin', 'literal']))])
+        if draw(st.booleans()):
+            steps.append(['mutate', draw(st.sampled_from(['append', 'prepend', 'insert', 'iadd', 'setslice', 'prop_bin', 'prop_hex', 'imul'])), draw(raw), draw(raw), draw(raw), draw(raw),
+                          draw(bits_st(max_len=12, min_len=1))])
+        if draw(st.integers(0, 3)) == 0:
+            steps.append(['derive', draw(st.sampled_from(['empty_append', 'empty_prepend', 'add_empty_left', 'join_empty', 'literal', 'fromstring', 'ctor_Bits', 'ctor_BitArray'])),
+                          draw(raw), draw(raw), draw(raw), draw(raw)])
+    return {'steps': steps}
+
+
+@st.composite
 def created_case(draw, tier):
     """the same recipe built several times through different routes, mutations in between, then built again"""
     ri = draw(st.integers(0, len(RECIPES) - 1))
@@ -796,6 +815,7 @@ SUBCHECKS = [
     Sub('C04.derive_then_mutate', run_history, strategy=pair_case, ambient=('bytealigned', 'lsb0'), examples={'quick': 12000, 'thorough': 200000}),
     Sub('C04.external_source', run_history, strategy=source_case, ambient=('bytealigned', 'lsb0'), examples={'quick': 5000, 'thorough': 60000}),
     Sub('C04.immutable_surface', run_history, strategy=immutable_case, ambient=('bytealigned', 'lsb0'), examples={'quick': 4000, 'thorough': 50000}),
+    Sub('C04.empty_objects', run_history, strategy=empty_case, ambient=('bytealigned', 'lsb0'), examples={'quick': 3000, 'thorough': 40000}),
     Sub('C04.created_values', run_history, strategy=created_case, ambient=('bytealigned', 'lsb0'), examples={'quick': 6000, 'thorough': 80000}),
     Sub('C04.array', run_history, strategy=array_case, ambient=('bytealigned', 'lsb0'), examples={'quick': 3000, 'thorough': 40000}),
     Sub('C04.history', run_history, strategy=history_st(), ambient=('bytealigned', 'lsb0'), examples={'quick': 4000, 'thorough': 60000}),
